@@ -256,6 +256,12 @@ func VerifC14_ServerFailure() {
 		ioutil.WriteFile(p, vBytes("garbage", 3), 0644)
 		up = ls
 	}
+	op := vChoose("op", 3)
+	if op != 2 && vChoose("behind-router", 2) == 1 && kind != 3 && kind != 4 { // (a router is read-only: no uploads through it)
+		// a read-only chunk server serves from a router over its upstream stores (the second
+		// member never has the chunk): the verdicts are the same
+		up = NewStoreRouter(up, &verifStore{})
+	}
 	sconv := Converters{Compressor{}}
 	if clientUnc {
 		sconv = Converters{}
@@ -273,7 +279,6 @@ func VerifC14_ServerFailure() {
 		return verifResp(w.code, w.body), nil
 	}
 	s := verifHTTPStore(rt, StoreOptions{ErrorRetry: 1, Uncompressed: clientUnc, SkipVerify: skip})
-	op := vChoose("op", 3)
 	var c *Chunk
 	var err error
 	var has bool
